@@ -116,6 +116,9 @@ def s_pca_random_case(draw):
     return {
         "data": data,
         "splits": [draw(split_case(n)), draw(split_case(n))],
+        # features that are identically zero in every sample (planar 3-D shapes, background pixels): the mean then has
+        # exactly-zero entries without being the zero vector. 0 or 2 extra all-zero columns inserted at drawn positions
+        "zero_cols": draw(st.sampled_from([[], [], [], [0, 0], [1, 3], [2, 5]])),
         "kind": kind,
         "side": side,
     }
@@ -145,13 +148,17 @@ def _run_incremental(kind, x, centre, split):
     else:
         tmpl = PointCloud(np.zeros((x.shape[1] // 2, 2)))
         m = PCAModel([tmpl.from_vector(r.copy()) for r in chunks[0]], centre=centre)
-    zero_mean_corner = centre and bool(np.all(np.asarray(m._mean) == 0))
+    # the excluded corner (a centred model whose running mean is EXACTLY the zero vector) is decided from the data,
+    # never from the state of the model under test
+    seen = chunks[0]
+    zero_mean_corner = centre and bool(np.all(seen.mean(axis=0) == 0))
     for c in chunks[1:]:
         if kind == "vector":
             m.increment(c.copy(), forgetting_factor=1.0)
         else:
             m.increment([tmpl.from_vector(r.copy()) for r in c], forgetting_factor=1.0)
-        if centre and bool(np.all(np.asarray(m._mean) == 0)):
+        seen = np.vstack([seen, c])
+        if centre and bool(np.all(seen.mean(axis=0) == 0)):
             zero_mean_corner = True
     return m, chunks, zero_mean_corner
 
@@ -202,6 +209,14 @@ def c_pca(case, ctx):
     dc = case["data"]
     x = rp.build_data(dc)
     n, d, r, centre = dc["n"], dc["d"], dc["r"], dc["centre"]
+    zc = case.get("zero_cols", [])
+    if zc:
+        # appending all-zero feature columns changes neither the rank nor the spectrum
+        for pos in sorted(zc):
+            x = np.insert(x, min(pos, x.shape[1]), 0.0, axis=1)
+        x = np.ascontiguousarray(x)
+        d = x.shape[1]
+        ctx.event("identically-zero features: %d" % len(zc))
     kind = case["kind"]
     sc = max(1.0, float(np.abs(x).max()))
     ctx.event("side=%s centre=%s" % (case["side"], centre))
